@@ -145,6 +145,18 @@ where
     }
 }
 
+#[cfg(feature = "verif-hooks")]
+impl<ID> Parser<ID>
+where
+    ID: Eq + Hash + Clone + Debug,
+{
+    /// Verification hook: the stored per-file parse-stage results (tree + syntax
+    /// diagnostics, before validation)
+    pub fn verif_parse_results(&self) -> &HashMap<ID, ParseFileResult<ID>> {
+        &self.lalrpop_results
+    }
+}
+
 impl Parser<PathBuf> {
     /// Add a file to the parser and use its path as key.
     ///
